@@ -35,7 +35,10 @@ def replay(ctx, path):
 
 
 def plan_tmp(ctx):
-    run_family(ctx, "roundtrip", 100, perfile=10)
-    run_family(ctx, "merge_obs", 200, perfile=10)
+    import os
+    fams = os.environ.get("FAMS", "iter_walk").split(",")
+    n = int(os.environ.get("N", "100"))
+    for f in fams:
+        run_family(ctx, f, n, perfile=int(os.environ.get("PF", "10")))
 
 PLANS["TMP"] = plan_tmp
